@@ -178,6 +178,26 @@ func C03(c *run.Check) {
 	r.runGrid(len(ja), func(i int) *adoc.Doc { return adoc.Instantiate(ja[i].f, ja[i].deco) }, fromAll, nil)
 	rootOnly := func(n *adoc.Node) bool { return n.Kind == adoc.Root }
 	r.runGrid(len(jb), func(i int) *adoc.Doc { return adoc.Instantiate(jb[i].f, jb[i].deco) }, fromRoot, rootOnly)
+	// namespace declarations reported twice in a row (as the XML adaptor reports a
+	// default-namespace declaration): the second report replaces the first node
+	// in place, and every node keeps a position of its own
+	{
+		var rep []job
+		for _, j := range ja {
+			if j.deco == adoc.D5 || j.deco == adoc.D2 {
+				rep = append(rep, j)
+			}
+		}
+		for _, f := range shapesA {
+			rep = append(rep, job{f, adoc.D3})
+		}
+		r.runGrid(len(rep), func(i int) *adoc.Doc {
+			d := adoc.Instantiate(rep[i].f, rep[i].deco)
+			d.RepeatDecls = true
+			return d
+		}, fromRoot, rootOnly)
+		c.Set("documents_with_repeated_declarations", len(rep))
+	}
 	// deeper trees: every ordered forest of up to 6 (thorough: 7) elements, so that
 	// subtrees of depth 3 and more hang off preceding / following siblings and
 	// ancestors; all one- and two-step paths from every context node
